@@ -147,7 +147,26 @@ def corrupt_javashapes(recs):
     return i
 
 
-SUITES = [("frontsderive", corrupt_frontsderive), ("javashapes", corrupt_javashapes), ("todo", corrupt_todo), ("arch", corrupt_arch), ("fronts", corrupt_fronts), ("deps", corrupt_deps),
+def corrupt_unusedclasses(recs):
+    # one class dropped from a returned list
+    i = _first(recs, lambda r: not r["observed"]["panic"] and r["observed"]["result"])
+    recs[i]["observed"]["result"].pop()
+    recs[i]["observed"]["again"] = list(recs[i]["observed"]["result"])
+    return i
+
+
+def corrupt_cocafile(recs):
+    # one returned file dropped from one run (both requests)
+    i = _first(recs, lambda r: any(run["files"] and not run["panic"] for run in r["observed"]["runs"]))
+    for run in recs[i]["observed"]["runs"]:
+        if run["files"] and not run["panic"]:
+            run["files"].pop()
+            run["again"] = list(run["files"])
+            break
+    return i
+
+
+SUITES = [("unusedclasses", corrupt_unusedclasses), ("cocafile", corrupt_cocafile), ("frontsderive", corrupt_frontsderive), ("javashapes", corrupt_javashapes), ("todo", corrupt_todo), ("arch", corrupt_arch), ("fronts", corrupt_fronts), ("deps", corrupt_deps),
           ("badsmell", corrupt_badsmell), ("testsmell", corrupt_testsmell), ("cloc", corrupt_cloc), ("stats", corrupt_stats),
           ("callgraph", corrupt_callgraph), ("springapi", corrupt_springapi), ("javamodel", corrupt_javamodel),
           ("gitlog", corrupt_gitlog), ("rename", corrupt_rename), ("unusedimport", corrupt_unusedimport)]
@@ -155,7 +174,10 @@ SUITES = [("frontsderive", corrupt_frontsderive), ("javashapes", corrupt_javasha
 
 def main():
     ok = True
+    only = [x for x in os.environ.get("VERIF_SELFTEST_ONLY", "").split(",") if x]     # e.g. VERIF_SELFTEST_ONLY=cocafile,unusedclasses
     for sname, corrupt in SUITES:
+        if only and sname not in only:
+            continue
         S = importlib.import_module("suites." + sname)
         plan = S.plan("", "quick", 1)
         b = V.build_harness(plan["harness"])
@@ -192,6 +214,9 @@ def main():
         V.write_ndjson(wd + "/t3.ndjson", recs[1:])
         d2, n2, _ = V.validate_trace(tm, tc, wd + "/t3.ndjson", "st", shards=1)
         ok = ok and n2 == n - 1
+    if only:
+        print("selftest", "ok" if ok else "FAILED")
+        return 0 if ok else 1
     # the model-level counterexample of MapOrder must be one
     d = V.workdir("selftest-maporder")
     r = V.run_tlc("MapOrder_MC", "MapOrder_fold_chain_EXPECTED_VIOLATION.cfg", d, workers=2, timeout=120)
